@@ -200,6 +200,13 @@ func mkContexts(r *rand.Rand) []*apd.Context {
 		ctxs = append(ctxs, &apd.Context{Precision: uint32(1 + r.Intn(30)), MaxExponent: 6144, MinExponent: -6143, Rounding: modes[r.Intn(8)]})
 	}
 	ctxs = append(ctxs, apd.BaseContext.WithPrecision(20), apd.BaseContext.WithPrecision(0), apd.BaseContext.WithPrecision(1))
+	// contexts that trap the everyday conditions ("exact or error"): the composite functions (Sqrt, Cbrt, Exp, Ln,
+	// Pow, Quantize ...) then leave through their internal error exits, concurrently with calls that succeed - a
+	// resource released twice or too early on such an exit only shows when both kinds of call are in flight
+	ctxs = append(ctxs,
+		&apd.Context{Precision: 30, MaxExponent: 6144, MinExponent: -6143, Rounding: apd.RoundHalfEven, Traps: apd.Inexact},
+		&apd.Context{Precision: uint32(2 + r.Intn(12)), MaxExponent: 999, MinExponent: -999, Rounding: modes[r.Intn(8)], Traps: apd.Inexact | apd.Rounded},
+		&apd.Context{Precision: uint32(1 + r.Intn(20)), MaxExponent: 99, MinExponent: -99, Rounding: modes[r.Intn(8)], Traps: apd.Condition(1<<12 - 1)})
 	return ctxs
 }
 
